@@ -187,5 +187,37 @@ def check_C13(ctx):
     fs_property(ctx, "C13", "C13", ["C13_limit"], oracles.c13)
 
 
-REGISTRY = {"C10": check_C10, "C15": check_C15, "C01": check_C01, "C02": check_C02, "C04": check_C04, "C05": check_C05,
+def check_C06(ctx):
+    import prefix, collections
+    ctx.trusted += M1_TRUST + ["Model/Prefix.v states what the indexer makes of a cut (header applied once the header group is complete, error iff the data is cut); tied by the sweep over every sampled cut length of every generated tape"]
+    coq_props(ctx, "C06", ["C06_prefix", "C06_error_iff_torn", "C06_intact", "C06_fetch", "C06_nonvacuous"])
+    data = prefix.prefix_stream(ctx)
+    tie = prefix.c06_tie(ctx, data)
+    ctx.oblige("correspondence: Model/Prefix.v evaluates in Coq on the swept cuts", tie["ok"], tie["log"])
+    ctx.oblige("correspondence: model and implementation agree on (error reported, headers applied) for every swept cut (%d cuts)" % tie["total"], tie["ok"] and not tie["bad"], json.dumps(tie["bad"][:5]))
+    for (k, ns) in tie["bad"][:3]:
+        ctx.violation("correspondence", "indexing a tape cut at %s bytes differs from the model" % ns,
+                      dict(history=data[k]["job"]["history"], cut_lengths=ns), found_input=False)
+    nfail, ncuts = 0, 0
+    classes = collections.Counter()
+    for d in data:
+        fails, n = prefix.c06_oracle(d)
+        ncuts += n
+        for r in d["out"][1:]:
+            classes[r.get("class")] += 1
+        for f in fails:
+            nfail += 1
+            if nfail <= 5:
+                ctx.violation(f["kind"], "%s when the tape is cut after %s bytes" % (f["kind"], f["n"]),
+                              dict(history=d["job"]["history"], cut_after_bytes=f["n"], detail=f["detail"],
+                                   how="run the history, truncate the drive file to that length, recovery.Index(0,0,overwrite=true) into an empty index, Fetch every row"))
+    ctx.oblige("oracle: for every swept cut the indexer terminates, the state is that of the last complete record (plus the torn header), untouched contents are exact, the torn entry reports an error", nfail == 0, "%d failures" % nfail)
+    ctx.coverage.update(evaluations=ncuts, tapes=len(data), distinct_nontrivial=len([d for d in data if len(d["out"]) > 1 and len(d["out"][0].get("members", [])) > 2]),
+                        result_classes=dict(classes), exhaustive=(ctx.tier == "thorough"),
+                        rule="tapes from generated histories (<= ~80 blocks); cut lengths: every %s byte plus every block boundary +-1 and every end of data +-1; non-trivial tape = more than two records" % ("" if ctx.tier == "thorough" else "41st"),
+                        samples=[dict(members=[(m["start"], m["hb"], m["size"], m["name"]) for m in data[0]["out"][0]["members"]][:6],
+                                      cuts=[(r["n"], r["class"]) for r in data[0]["out"][1:8]])] if data and data[0]["out"] else [])
+
+
+REGISTRY = {"C06": check_C06, "C10": check_C10, "C15": check_C15, "C01": check_C01, "C02": check_C02, "C04": check_C04, "C05": check_C05,
             "C12": check_C12, "C13": check_C13}
